@@ -38,6 +38,8 @@ static int GRAM;
 #define MAXFR 1024
 static uint64_t FEAT_HASH[MAXFR];
 static int NFEAT_HASH, RECORD_FEAT;
+static int NEWFRAMES; /* frames scored for the first time since the counter was last cleared */
+static int P_C03;     /* --props C03: only the frame accounting of the processing calls is judged */
 int16 const *__real_acmod_score(acmod_t *acmod, int *inout_frame_idx);
 int16 const *
 __wrap_acmod_score(acmod_t *acmod, int *inout_frame_idx)
@@ -51,8 +53,10 @@ __wrap_acmod_score(acmod_t *acmod, int *inout_frame_idx)
         if (fv) {
             mc_h128 h = mc_hash(fv[0], sizeof(mfcc_t) * feat_dimension(acmod->fcb));
             FEAT_HASH[fr] = h.a ^ h.b;
-            if (fr + 1 > NFEAT_HASH)
+            if (fr + 1 > NFEAT_HASH) {
+                NEWFRAMES += fr + 1 - NFEAT_HASH;
                 NFEAT_HASH = fr + 1;
+            }
         }
         (void)idx;
     }
@@ -208,9 +212,12 @@ run_plan(const plan_t *p, digest_t *g, const char *cd)
         int k = 0;
         for (start = 0; start < N; start += p->uniform, k++) {
             size_t len = N - start < p->uniform ? N - start : p->uniform;
+            NEWFRAMES = 0;
             rc = p->isfloat[0] ? decoder_process_float32(D, AUDF + start, len, 0, 0) : decoder_process_int16(D, AUD + start, len, 0, 0);
             if (rc < 0)
                 goto procfail;
+            if (P_C03 && rc != NEWFRAMES)
+                goto countfail;
             acc += rc;
             if ((p->query[0] & Q_HYP) && k % 16 == 15) {
                 int32 sc;
@@ -228,12 +235,15 @@ run_plan(const plan_t *p, digest_t *g, const char *cd)
                 goto procfail;
             acc += rc;
         }
+        NEWFRAMES = 0;
         if (p->isfloat[i])
             rc = decoder_process_float32(D, AUDF + start, end - start, p->nosearch[i], 0);
         else
             rc = decoder_process_int16(D, AUD + start, end - start, p->nosearch[i], 0);
         if (rc < 0)
             goto procfail;
+        if (P_C03 && rc != NEWFRAMES)
+            goto countfail;
         acc += rc;
         RECORD_FEAT = 0; /* second-pass and lattice queries do not belong to the first-pass fingerprint */
         if (p->query[i] & Q_HYP) {
@@ -263,7 +273,11 @@ run_plan(const plan_t *p, digest_t *g, const char *cd)
     collect(g, acc);
     return 0;
 procfail:
-    mc_viol("C07/process-failed", cd, "a processing call returned %d", rc);
+    mc_viol(P_C03 ? "C03/process-failed" : "C07/process-failed", cd, "a processing call returned %d", rc);
+    return -1;
+countfail:
+    /* decoder.h: the processing calls return "the number of frames of data searched" */
+    mc_viol("C03/frames-returned-by-a-call-differ-from-frames-searched", cd, "a processing call returned %d, %d frames were searched during it", rc, NEWFRAMES);
     return -1;
 }
 
@@ -409,7 +423,14 @@ run_index(long long idx, void *arg)
     mc_case_begin(idx, cd);
     if (run_plan(&PLANS[idx], &g, cd) < 0)
         return -1;
-    if (compare(&g, cd) < 0)
+    if (P_C03) {
+        /* all calls together, plus what decoder_end_utt searched, are the frames of the utterance */
+        if (g.nfeat != REF.nfeat || g.n_frames != REF.n_frames) {
+            mc_viol("C03/frames-do-not-add-up", cd, "%d frames searched in total (decoder_n_frames %d), the one-call run has %d (%d)", g.nfeat, g.n_frames, REF.nfeat,
+                    REF.n_frames);
+            return -1;
+        }
+    } else if (compare(&g, cd) < 0)
         return -1;
     return PLANS[idx].ncut > 0 || PLANS[idx].uniform > 0 || idx > 0;
 }
@@ -431,6 +452,7 @@ main(int argc, char **argv)
     err_set_loglevel(ERR_FATAL);
     sscanf(mc_arg(argc, argv, "--shard", "0/1"), "%d/%d", &shard, &nshard);
     GRAM = atoi(mc_arg(argc, argv, "--gram", "0"));
+    P_C03 = strcmp(mc_arg(argc, argv, "--props", "C07"), "C03") == 0;
     fp = fopen(DATADIR "/goforward.raw", "rb");
     if (!fp)
         return 2;
@@ -488,7 +510,7 @@ main(int argc, char **argv)
         if (plan_parse(cas, &p) < 0)
             return 2;
         mc_set_current(cas);
-        if (run_plan(&p, &g, cas) == 0)
+        if (run_plan(&p, &g, cas) == 0 && !P_C03)
             compare(&g, cas);
         mc_finish();
         return 0;
